@@ -1,0 +1,7 @@
+//go:build !verif
+
+package tea
+
+// verifPause is a pause point of the verification harness (build tag verif).
+// Without the tag it does nothing.
+func verifPause(string) {}
